@@ -701,7 +701,6 @@ pub fn unrelated_calls<const N: usize>(residue: bool) {
             // fail: the right graph is a forest, whatever the start
             let _ = b.merge(&a, 0, 0);
             let _ = b.merge(&a, 7, 3);
-            let _ = b.merge(&a, 7, 5);
         } else {
             let mut t: Sodg<N> = Sodg::empty(4);
             t.add(0);
@@ -712,16 +711,27 @@ pub fn unrelated_calls<const N: usize>(residue: bool) {
     });
 }
 
+/// trace_of() in a thread that has never run anything else
+pub fn trace_in_fresh_thread<const M: usize>(cap: usize, hist: &[Op]) -> String {
+    std::thread::scope(|s| {
+        s.spawn(|| {
+            crate::real::install_panic_hook();
+            trace_of::<M>(cap, hist)
+        })
+        .join()
+        .unwrap_or_else(|_| "<the fresh thread panicked>".to_string())
+    })
+}
+
 pub fn lockstep_probe<const N: usize>(cfg: &HxCfg, hist: &dyn Fn() -> Vec<Op>, out: &mut Vec<Finding>, counters: &mut BTreeMap<&'static str, u64>) {
     let tags: &[&'static str] = &["C19"];
     let h = hist();
     // calls on unrelated objects in between must not matter: state hidden in the thread or the
     // process (scratch buffers, caches) would make a replay come out differently. The base trace
     // is taken after unrelated calls that all succeed, the replays after ones that end in failures.
-    if cfg.probes.rerun > 0 {
-        unrelated_calls::<N>(false);
-    }
-    let base = trace_of::<N>(cfg.cap, &h);
+    // The base trace is taken in a freshly spawned thread (nothing can be left over in thread-local
+    // state there), the replays in this worker thread after unrelated calls that end in failures.
+    let base = if cfg.probes.rerun > 0 { trace_in_fresh_thread::<N>(cfg.cap, &h) } else { trace_of::<N>(cfg.cap, &h) };
     for i in 0..cfg.probes.rerun {
         unrelated_calls::<N>(i % 2 == 0);
         let again = trace_of::<N>(cfg.cap, &h);
